@@ -136,18 +136,48 @@ func (el *ErrorListener) ReportContextSensitivity(recognizer antlr.Parser, dfa *
 func ParseZqlString(text string) string {
 	t := strings.TrimSuffix(strings.TrimPrefix(text, `"`), `"`)
 
-	//remove golang string back slash escaping
-	t = strings.Replace(t, `\\`, `\`, -1)
+	if !strings.Contains(t, `\`) {
+		return t
+	}
 
-	//remove ZitiQL string escaping
-	t = strings.Replace(t, `\"`, `"`, -1)
-	t = strings.Replace(t, `\f`, "\f", -1)
-	t = strings.Replace(t, `\n`, "\n", -1)
-	t = strings.Replace(t, `\r`, "\r", -1)
-	t = strings.Replace(t, `\t`, "\t", -1)
-	t = strings.Replace(t, `\\`, `\`, -1)
+	// remove ZitiQL string escaping in a single left-to-right pass, so that the
+	// output of one escape sequence (e.g. the backslash of `\\`) is never
+	// re-read as the start of another one
+	buf := make([]byte, 0, len(t))
+	for i := 0; i < len(t); i++ {
+		c := t[i]
+		if c == '\\' && i+1 < len(t) {
+			switch t[i+1] {
+			case '\\':
+				buf = append(buf, '\\')
+				i++
+				continue
+			case '"':
+				buf = append(buf, '"')
+				i++
+				continue
+			case 'f':
+				buf = append(buf, '\f')
+				i++
+				continue
+			case 'n':
+				buf = append(buf, '\n')
+				i++
+				continue
+			case 'r':
+				buf = append(buf, '\r')
+				i++
+				continue
+			case 't':
+				buf = append(buf, '\t')
+				i++
+				continue
+			}
+		}
+		buf = append(buf, c)
+	}
 
-	return t
+	return string(buf)
 }
 
 var dateTimeStripper = regexp.MustCompile(`^\s*datetime\(\s*(.*?)\s*\)\s*$`)
